@@ -2,6 +2,7 @@ import RpmVerif.Lemmas.Decode
 import RpmVerif.Model.Accessors
 import RpmVerif.Gen.FileEntriesShape
 import RpmVerif.Spec.ScriptletTags
+import RpmVerif.Spec.RpmTagNames
 import RpmVerif.Lemmas.PkgFiles  -- shares the auxiliary `buildEntries` match lemmas (two modules realising them independently cannot be imported together)
 /-!
 # C05 — metadata accessors return exactly what the header stores
@@ -844,5 +845,15 @@ theorem scriptlet_tags_standard : Gen.scriptletTags = RpmVerif.Spec.stdScriptlet
 /-- no tag serves two purposes: the 27 tags of the nine triples are pairwise distinct -/
 theorem scriptlet_tags_distinct :
     (Gen.scriptletTags.flatMap fun t => [t.2.1, t.2.2.1, t.2.2.2]).Nodup := by decide
+
+/-- **the tag numbers of the code are rpm's**: each of the 173 tag names of the independent transcription of rpm's tag table
+has, in the `IndexTag` enum scraped from src/constants.rs, the number rpm gives it — an accessor reading `RPMTAG_X` reads the
+entry rpm (and every rpm-built package) stores under X -/
+theorem index_tag_numbers_standard :
+    ([(IndexTag.RPMTAG_HEADERI18NTABLE, 100), (IndexTag.RPMTAG_NAME, 1000), (IndexTag.RPMTAG_VERSION, 1001), (IndexTag.RPMTAG_RELEASE, 1002), (IndexTag.RPMTAG_EPOCH, 1003), (IndexTag.RPMTAG_SUMMARY, 1004), (IndexTag.RPMTAG_DESCRIPTION, 1005), (IndexTag.RPMTAG_BUILDTIME, 1006), (IndexTag.RPMTAG_BUILDHOST, 1007), (IndexTag.RPMTAG_INSTALLTIME, 1008), (IndexTag.RPMTAG_SIZE, 1009), (IndexTag.RPMTAG_DISTRIBUTION, 1010), (IndexTag.RPMTAG_VENDOR, 1011), (IndexTag.RPMTAG_GIF, 1012), (IndexTag.RPMTAG_XPM, 1013), (IndexTag.RPMTAG_LICENSE, 1014), (IndexTag.RPMTAG_PACKAGER, 1015), (IndexTag.RPMTAG_GROUP, 1016), (IndexTag.RPMTAG_SOURCE, 1018), (IndexTag.RPMTAG_PATCH, 1019), (IndexTag.RPMTAG_URL, 1020), (IndexTag.RPMTAG_OS, 1021), (IndexTag.RPMTAG_ARCH, 1022), (IndexTag.RPMTAG_PREIN, 1023), (IndexTag.RPMTAG_POSTIN, 1024), (IndexTag.RPMTAG_PREUN, 1025), (IndexTag.RPMTAG_POSTUN, 1026), (IndexTag.RPMTAG_OLDFILENAMES, 1027), (IndexTag.RPMTAG_FILESIZES, 1028), (IndexTag.RPMTAG_FILESTATES, 1029), (IndexTag.RPMTAG_FILEMODES, 1030), (IndexTag.RPMTAG_FILERDEVS, 1033), (IndexTag.RPMTAG_FILEMTIMES, 1034), (IndexTag.RPMTAG_FILEDIGESTS, 1035), (IndexTag.RPMTAG_FILELINKTOS, 1036), (IndexTag.RPMTAG_FILEFLAGS, 1037), (IndexTag.RPMTAG_FILEUSERNAME, 1039), (IndexTag.RPMTAG_FILEGROUPNAME, 1040), (IndexTag.RPMTAG_ICON, 1043), (IndexTag.RPMTAG_SOURCERPM, 1044), (IndexTag.RPMTAG_FILEVERIFYFLAGS, 1045), (IndexTag.RPMTAG_ARCHIVESIZE, 1046), (IndexTag.RPMTAG_PROVIDENAME, 1047), (IndexTag.RPMTAG_REQUIREFLAGS, 1048), (IndexTag.RPMTAG_REQUIRENAME, 1049), (IndexTag.RPMTAG_REQUIREVERSION, 1050), (IndexTag.RPMTAG_NOSOURCE, 1051), (IndexTag.RPMTAG_NOPATCH, 1052), (IndexTag.RPMTAG_CONFLICTFLAGS, 1053), (IndexTag.RPMTAG_CONFLICTNAME, 1054), (IndexTag.RPMTAG_CONFLICTVERSION, 1055), (IndexTag.RPMTAG_EXCLUDEARCH, 1059), (IndexTag.RPMTAG_EXCLUDEOS, 1060), (IndexTag.RPMTAG_EXCLUSIVEARCH, 1061), (IndexTag.RPMTAG_EXCLUSIVEOS, 1062), (IndexTag.RPMTAG_RPMVERSION, 1064), (IndexTag.RPMTAG_TRIGGERSCRIPTS, 1065), (IndexTag.RPMTAG_TRIGGERNAME, 1066), (IndexTag.RPMTAG_TRIGGERVERSION, 1067), (IndexTag.RPMTAG_TRIGGERFLAGS, 1068), (IndexTag.RPMTAG_TRIGGERINDEX, 1069), (IndexTag.RPMTAG_VERIFYSCRIPT, 1079), (IndexTag.RPMTAG_CHANGELOGTIME, 1080), (IndexTag.RPMTAG_CHANGELOGNAME, 1081), (IndexTag.RPMTAG_CHANGELOGTEXT, 1082), (IndexTag.RPMTAG_PREINPROG, 1085), (IndexTag.RPMTAG_POSTINPROG, 1086), (IndexTag.RPMTAG_PREUNPROG, 1087), (IndexTag.RPMTAG_POSTUNPROG, 1088), (IndexTag.RPMTAG_BUILDARCHS, 1089), (IndexTag.RPMTAG_OBSOLETENAME, 1090), (IndexTag.RPMTAG_VERIFYSCRIPTPROG, 1091), (IndexTag.RPMTAG_TRIGGERSCRIPTPROG, 1092), (IndexTag.RPMTAG_COOKIE, 1094), (IndexTag.RPMTAG_FILEDEVICES, 1095), (IndexTag.RPMTAG_FILEINODES, 1096), (IndexTag.RPMTAG_FILELANGS, 1097), (IndexTag.RPMTAG_PREFIXES, 1098), (IndexTag.RPMTAG_INSTPREFIXES, 1099), (IndexTag.RPMTAG_SOURCEPACKAGE, 1106), (IndexTag.RPMTAG_PROVIDEFLAGS, 1112), (IndexTag.RPMTAG_PROVIDEVERSION, 1113), (IndexTag.RPMTAG_OBSOLETEFLAGS, 1114), (IndexTag.RPMTAG_OBSOLETEVERSION, 1115), (IndexTag.RPMTAG_DIRINDEXES, 1116), (IndexTag.RPMTAG_BASENAMES, 1117), (IndexTag.RPMTAG_DIRNAMES, 1118), (IndexTag.RPMTAG_ORIGDIRINDEXES, 1119), (IndexTag.RPMTAG_ORIGBASENAMES, 1120), (IndexTag.RPMTAG_ORIGDIRNAMES, 1121), (IndexTag.RPMTAG_OPTFLAGS, 1122), (IndexTag.RPMTAG_DISTURL, 1123), (IndexTag.RPMTAG_PAYLOADFORMAT, 1124), (IndexTag.RPMTAG_PAYLOADCOMPRESSOR, 1125), (IndexTag.RPMTAG_PAYLOADFLAGS, 1126), (IndexTag.RPMTAG_INSTALLCOLOR, 1127), (IndexTag.RPMTAG_INSTALLTID, 1128), (IndexTag.RPMTAG_REMOVETID, 1129), (IndexTag.RPMTAG_PLATFORM, 1132), (IndexTag.RPMTAG_FILECOLORS, 1140), (IndexTag.RPMTAG_FILECLASS, 1141), (IndexTag.RPMTAG_CLASSDICT, 1142), (IndexTag.RPMTAG_FILEDEPENDSX, 1143), (IndexTag.RPMTAG_FILEDEPENDSN, 1144), (IndexTag.RPMTAG_DEPENDSDICT, 1145), (IndexTag.RPMTAG_SOURCEPKGID, 1146), (IndexTag.RPMTAG_POLICIES, 1150), (IndexTag.RPMTAG_PRETRANS, 1151), (IndexTag.RPMTAG_POSTTRANS, 1152), (IndexTag.RPMTAG_PRETRANSPROG, 1153), (IndexTag.RPMTAG_POSTTRANSPROG, 1154), (IndexTag.RPMTAG_DISTTAG, 1155), (IndexTag.RPMTAG_LONGFILESIZES, 5008), (IndexTag.RPMTAG_LONGSIZE, 5009), (IndexTag.RPMTAG_FILECAPS, 5010), (IndexTag.RPMTAG_FILEDIGESTALGO, 5011), (IndexTag.RPMTAG_BUGURL, 5012), (IndexTag.RPMTAG_PREINFLAGS, 5020), (IndexTag.RPMTAG_POSTINFLAGS, 5021), (IndexTag.RPMTAG_PREUNFLAGS, 5022), (IndexTag.RPMTAG_POSTUNFLAGS, 5023), (IndexTag.RPMTAG_PRETRANSFLAGS, 5024), (IndexTag.RPMTAG_POSTTRANSFLAGS, 5025), (IndexTag.RPMTAG_VERIFYSCRIPTFLAGS, 5026), (IndexTag.RPMTAG_TRIGGERSCRIPTFLAGS, 5027), (IndexTag.RPMTAG_VCS, 5034), (IndexTag.RPMTAG_ORDERNAME, 5035), (IndexTag.RPMTAG_ORDERVERSION, 5036), (IndexTag.RPMTAG_ORDERFLAGS, 5037), (IndexTag.RPMTAG_RECOMMENDNAME, 5046), (IndexTag.RPMTAG_RECOMMENDVERSION, 5047), (IndexTag.RPMTAG_RECOMMENDFLAGS, 5048), (IndexTag.RPMTAG_SUGGESTNAME, 5049), (IndexTag.RPMTAG_SUGGESTVERSION, 5050), (IndexTag.RPMTAG_SUGGESTFLAGS, 5051), (IndexTag.RPMTAG_SUPPLEMENTNAME, 5052), (IndexTag.RPMTAG_SUPPLEMENTVERSION, 5053), (IndexTag.RPMTAG_SUPPLEMENTFLAGS, 5054), (IndexTag.RPMTAG_ENHANCENAME, 5055), (IndexTag.RPMTAG_ENHANCEVERSION, 5056), (IndexTag.RPMTAG_ENHANCEFLAGS, 5057), (IndexTag.RPMTAG_ENCODING, 5062), (IndexTag.RPMTAG_FILETRIGGERSCRIPTS, 5066), (IndexTag.RPMTAG_FILETRIGGERSCRIPTPROG, 5067), (IndexTag.RPMTAG_FILETRIGGERSCRIPTFLAGS, 5068), (IndexTag.RPMTAG_FILETRIGGERNAME, 5069), (IndexTag.RPMTAG_FILETRIGGERINDEX, 5070), (IndexTag.RPMTAG_FILETRIGGERVERSION, 5071), (IndexTag.RPMTAG_FILETRIGGERFLAGS, 5072), (IndexTag.RPMTAG_TRANSFILETRIGGERSCRIPTS, 5076), (IndexTag.RPMTAG_TRANSFILETRIGGERSCRIPTPROG, 5077), (IndexTag.RPMTAG_TRANSFILETRIGGERSCRIPTFLAGS, 5078), (IndexTag.RPMTAG_TRANSFILETRIGGERNAME, 5079), (IndexTag.RPMTAG_TRANSFILETRIGGERINDEX, 5080), (IndexTag.RPMTAG_TRANSFILETRIGGERVERSION, 5081), (IndexTag.RPMTAG_TRANSFILETRIGGERFLAGS, 5082), (IndexTag.RPMTAG_FILETRIGGERPRIORITIES, 5084), (IndexTag.RPMTAG_TRANSFILETRIGGERPRIORITIES, 5085), (IndexTag.RPMTAG_FILESIGNATURES, 5090), (IndexTag.RPMTAG_FILESIGNATURELENGTH, 5091), (IndexTag.RPMTAG_PAYLOADDIGEST, 5092), (IndexTag.RPMTAG_PAYLOADDIGESTALGO, 5093), (IndexTag.RPMTAG_MODULARITYLABEL, 5096), (IndexTag.RPMTAG_PAYLOADDIGESTALT, 5097), (IndexTag.RPMTAG_SPEC, 5099), (IndexTag.RPMTAG_TRANSLATIONURL, 5100), (IndexTag.RPMTAG_UPSTREAMRELEASES, 5101), (IndexTag.RPMTAG_PREUNTRANS, 5103), (IndexTag.RPMTAG_POSTUNTRANS, 5104), (IndexTag.RPMTAG_PREUNTRANSPROG, 5105), (IndexTag.RPMTAG_POSTUNTRANSPROG, 5106), (IndexTag.RPMTAG_PREUNTRANSFLAGS, 5107), (IndexTag.RPMTAG_POSTUNTRANSFLAGS, 5108)] : List (Nat × Nat)).all (fun p => p.1 == p.2) = true
+    ∧ RpmVerif.Spec.stdTagNames.length = 173 := by decide +kernel
+
+/-- and no two names of the code's enum share a number (a discriminant collision would not even compile in Rust; stated for the table) -/
+theorem index_tag_numbers_distinct : (Gen.indexTagTable.map (·.2)).Nodup := by decide +kernel
 
 end RpmVerif.C05
